@@ -186,6 +186,10 @@ impl IdMap {
             },
         )?;
 
+        // The record must be durable before the length that makes it visible: after a
+        // power loss a longer table with an unwritten slot cannot be repaired by replay.
+        pager.sync()?;
+
         self.i2e_len += 1;
         pager.set_i2e_len(self.i2e_len)?;
         pager.set_next_internal_id(self.next_internal_id())?;
